@@ -110,7 +110,11 @@ def run(ctx):
         for cont, idx, bcf in variants:
             if bcf and case.get("file_order") == "reversed-contigs":
                 pass  # bcftools view keeps the record order; the header order decides the output order
-            p = vcfgen.make_indexed(d, "in", text, kind=idx, min_shift=r.choice([9, 12, 14]), bcf=bcf)
+            try:
+                p = vcfgen.make_indexed(d, "in", text, kind=idx, min_shift=r.choice([9, 12, 14]), bcf=bcf)
+            except Exception as e:  # noqa: BLE001  (htslib refusing the generated file says nothing about bio2zarr)
+                ctx.note(f"generator: htslib could not write / index case {seed} as {cont}+{idx}: {type(e).__name__}")
+                continue
             doc = dict(doc0, container=cont, index=idx)
             ctx.case(doc, nontrivial=len(case["infos"]) + len(case["fmts"]) > 0, sample=(i == 0 and idx == "tbi"))
             ctx.count(f"{cont}+{idx}")
